@@ -148,6 +148,26 @@ def run(chk, facts):
                "for an access on the right of a constraint (`x := p.v`) the direction is reversed - a Float field is accepted for an Int variable", facts.loc_of(fa))
     except AnchorError as e:
         chk.anchor_fail("R-C05-6", e)
+    # ---------------- R-C05-7 ----------------
+    # "this operand must be an Int": where one side of a generated constraint is a fixed built-in type and the other an *operand* of the node
+    # (not the node itself, whose type the constraint defines), the fixed type is the parent - the operand must be assignable to it, not the
+    # reverse (D63: `0 .. f` with f: Float was accepted because an Int can be assigned to a Float)
+    chk.rule("R-C05-7", "a fixed built-in type that an operand must have is the parent of the constraint")
+    n7 = 0
+    import re as _re
+    for r in constr.census(syn):
+        if r["kind"] != "add":
+            continue
+        pt, ct = r["parent"], r["child"]
+        fixed = lambda x: bool(_re.fullmatch(r"type:Name\((INT|BOOL|FLOAT|STRING|COMPLEX)\)", x))
+        operand = lambda x: x.startswith("expr:") and x != "expr:ast"
+        if (fixed(pt) and operand(ct)) or (fixed(ct) and operand(pt)):
+            n7 += 1
+            ok7 = fixed(pt)
+            chk.ob("R-C05-7", f"{r['fn']}|{r['msg']}|{ct if fixed(pt) else pt}", ok7,
+                   f"{r['fn']} `{r['msg']}`: {pt} >= {ct}" if ok7 else
+                   f"{r['fn']} `{r['msg']}`: the operand is the parent ({pt} >= {ct}): whatever a value of that type can be *assigned to* is accepted - a Float where an Int is required")
+    chk.floor("R-C05-7", n7, 3, "operand-must-have-type constraints")
     chk.notes.append("C05: sibling agreement of the arity matchers; census of all constraint sites with operand roles; hand-down of return_type/is_expr.")
 
 
